@@ -1090,10 +1090,13 @@ func (t *Tokenizer) readQuotedString(quote rune) (models.Token, error) {
 		if r == '\\' {
 			// Handle escape sequences
 			if err := t.handleEscapeSequence(&buf); err != nil {
-				return models.Token{}, errors.InvalidSyntaxError(
+				// a lexical problem: report it with a tokenizer code and keep the cause
+				return models.Token{}, errors.WrapError(
+					errors.ErrCodeUnexpectedChar,
 					fmt.Sprintf("invalid escape sequence: %v", err),
 					t.getCurrentPosition(),
 					string(t.input),
+					err,
 				)
 			}
 			continue
@@ -1199,11 +1202,11 @@ func (t *Tokenizer) handleEscapeSequence(buf *bytes.Buffer) error {
 	case 't':
 		buf.WriteRune('\t')
 	default:
-		return errors.InvalidSyntaxError(
+		return errors.NewError(
+			errors.ErrCodeUnexpectedChar,
 			fmt.Sprintf("invalid escape sequence '\\%c'", r),
 			t.getCurrentPosition(),
-			string(t.input),
-		)
+		).WithContext(string(t.input), 1)
 	}
 
 	t.pos.Index += size
